@@ -11,7 +11,7 @@
 #include <stdarg.h>
 
 typedef struct { int fam; uint64_t idx; } rep;
-static rep REPS[120]; static int n_reps;
+static rep REPS[200]; static int n_reps;
 static const char *MORE_CALL = "nc: module\nimport f\npf: proto i64, i64:a, i64:b, p:m, p:q, d:x, d:y\nexport gc\ngc: func i64, i64:a, i64:b, p:m, p:q, d:x, d:y\n local i64:r, i64:t, i64:u\n call pf, f, r, a, b, m, q, x, y\n add r, r, 1\n mov t, a\n"
   /* a long tail (more program points than any f of the families) whose value cancels out in a way the optimizer does not see (no reassociation):
      a function generated later at a higher level needs longer allocator tables than the ones before it */
@@ -23,7 +23,7 @@ enum { O_GEN, O_LEVEL0, O_LEVEL3, O_OUTPUT, O_INTERP, O_CALL, O_MORE_CALL, O_MOR
 static const char *ONAME[] = {"gen(f)", "level(0)", "level(3)", "output(f)", "interp(f)", "call(f->addr)", "link(module calling f)", "link(module inlining f)"};
 static const char *SNAME[] = {"interp-interface", "eager-gen", "lazy-gen"};
 typedef struct { int rep, start; } cfg;
-static cfg CFGS[400]; static int n_cfgs, depth;
+static cfg CFGS[700]; static int n_cfgs, depth;
 
 /* per-case data shared by all replays */
 static char PROG[70000]; static const family *FAM; static uint64_t FIDX;
@@ -39,7 +39,17 @@ static void set_input (pinput in, mh_args *a) {
   a->nd = 2; a->d[0] = in.x; a->d[1] = in.y;
 }
 static uint64_t mem_obs (void) { uint8_t snap[2][MH_BUF]; memcpy (snap, mh_buf, sizeof snap); if (FAM->mask) FAM->mask (FIDX, snap[0]); return vp_hash_bytes (vp_hash_bytes (5, snap, sizeof snap), mh_gbuf, MH_BUF); }
-static char *item_text (mh_ctx *mc, MIR_item_t it, size_t *len) { char *b = NULL; FILE *f = open_memstream (&b, len); MIR_output_item (mc->ctx, f, it); fclose (f); return b; }
+/* text of the function and of every data item of its module (label reference tables belong to the function's IR) */
+static char *item_text (mh_ctx *mc, MIR_item_t it, size_t *len) {
+  char *b = NULL; FILE *f = open_memstream (&b, len);
+  for (MIR_item_t x = DLIST_HEAD (MIR_item_t, it->module->items); x; x = DLIST_NEXT (MIR_item_t, x))
+    if (x == it || x->item_type == MIR_lref_data_item || x->item_type == MIR_ref_data_item || x->item_type == MIR_data_item) MIR_output_item (mc->ctx, f, x);
+  fclose (f); return b; }
+/* an extra program outside the families: a dispatch through a table of label references (lref data) */
+static const char *LREF_PROG = "m: module\nimport e0, e1, e2, ev, ed, emem, e6, e10, edd, eid, e32, eu8, gbuf\n"
+  "tab: lref L1\n  lref L2\n  lref L2, L1\n"
+  "f: func i64, i64:a, i64:b, p:m, p:q, d:x, d:y\n  local i64:r, i64:t, i64:la\n  and t, a, 1\n  mov la, tab\n  mov la, i64:(la, t, 8)\n  jmpi la\nL1:\n  add r, b, 10\n  ret r\nL2:\n  sub r, b, 20\n  ret r\nendfunc\nendmodule\n";
+static const family LREF_FAM = {"X-lref-dispatch", NULL, NULL, in_intgrid_n, in_intgrid};
 static void failh (const char *kind, const char *fmt, ...) {
   char hist[800], msg[700]; va_list ap; bfs_history_text (hist, sizeof hist); va_start (ap, fmt); vsnprintf (msg, sizeof msg, fmt, ap); va_end (ap);
   vp_fail (kind, "history=[%s] %s", hist, msg);
@@ -118,14 +128,16 @@ void drv_init (int thorough) {
   progfam_thorough = 0; depth = thorough ? 6 : 5;
   /* six representatives per family, evenly spaced through its index space */
   for (int f = 0; f < NFAM; f++) { uint64_t n = FAMILIES[f].count (0); if (n == 0) continue; uint64_t pick[6] = {0, n / 5, 2 * n / 5, 3 * n / 5, 4 * n / 5, n - 1};
-    for (int k = 0; k < 6; k++) { int dup = 0; for (int j = 0; j < n_reps; j++) if (REPS[j].fam == f && REPS[j].idx == pick[k]) dup = 1; if (!dup && n_reps < 120) REPS[n_reps++] = (rep){f, pick[k]}; } }
+    for (int k = 0; k < 6; k++) { int dup = 0; for (int j = 0; j < n_reps; j++) if (REPS[j].fam == f && REPS[j].idx == pick[k]) dup = 1; if (!dup && n_reps < 190) REPS[n_reps++] = (rep){f, pick[k]}; } }
+  if (n_reps < 200) REPS[n_reps++] = (rep){-1, 0};
   for (int r = 0; r < n_reps; r++) for (int s = 0; s < 3; s++) CFGS[n_cfgs++] = (cfg){r, s};
 }
 uint64_t drv_ncases (void) { return n_cfgs; }
-void drv_describe (uint64_t idx, char *buf, size_t n) { cfg *c = &CFGS[idx]; snprintf (buf, n, "C16 program=%s#%llu start=%s depth=%d", FAMILIES[REPS[c->rep].fam].name, (unsigned long long) REPS[c->rep].idx, SNAME[c->start], depth); }
+void drv_describe (uint64_t idx, char *buf, size_t n) { cfg *c = &CFGS[idx]; snprintf (buf, n, "C16 program=%s#%llu start=%s depth=%d", REPS[c->rep].fam < 0 ? "X-lref-dispatch" : FAMILIES[REPS[c->rep].fam].name, (unsigned long long) REPS[c->rep].idx, SNAME[c->start], depth); }
 
 void drv_case (uint64_t idx) {
-  cfg *c = &CFGS[idx]; FAM = &FAMILIES[REPS[c->rep].fam]; FIDX = REPS[c->rep].idx; f3_features = 0; FAM->render (FIDX);
+  cfg *c = &CFGS[idx]; FIDX = REPS[c->rep].idx; f3_features = 0;
+  if (REPS[c->rep].fam < 0) { FAM = &LREF_FAM; snprintf (PT, sizeof PT, "%s", LREF_PROG); } else { FAM = &FAMILIES[REPS[c->rep].fam]; FAM->render (FIDX); }
   if (f3_features & 1) { vp_count ("skipped_known_nontermination_class", 1); return; }
 #if defined(__SANITIZE_ADDRESS__)
   /* the interpreter implements bstart/bend by resetting the stack pointer inside eval(); ASan does not see that and keeps the
@@ -140,6 +152,9 @@ void drv_case (uint64_t idx) {
   for (int i = 0; i < n_inputs; i++) { mh_args a; ri_ctx ri; ri_val res[2]; memset (res, 0, sizeof res); set_input (FAM->input (FIDX, i * (FAM->ninputs (FIDX) / n_inputs)), &a); ri_init (&ri, rc.ctx, mh_exts, mh_n_exts, 20000);
     EXPECT[i].ok = mh_ref_call (&ri, f, &a, res) == RI_OK; EXPECT[i].low32 = res[0].taint; EXPECT[i].ret = res[0].u.i; EXPECT[i].mem = mem_obs (); EXPECT[i].log = mh_log_hash (); any |= EXPECT[i].ok; ri_finish (&ri); }
   if (mh_link (&rc, E_INTERP) != 0) { vp_fail ("mir-error", "%s", rc.errmsg); mh_close (&rc); return; }
+  if (REPS[c->rep].fam < 0) /* refinterp does not model data sections: this program is well defined by construction and MIR_interp in a context of its own gives the reference */
+    for (int i = 0; i < n_inputs; i++) { mh_args a; MIR_val_t res[2]; memset (res, 0, sizeof res); set_input (FAM->input (FIDX, i * (FAM->ninputs (FIDX) / n_inputs)), &a);
+      EXPECT[i].ok = mh_call (&rc, f, &a, res) == 0; EXPECT[i].low32 = 0; EXPECT[i].ret = res[0].i; EXPECT[i].mem = mem_obs (); EXPECT[i].log = mh_log_hash (); any |= EXPECT[i].ok; }
   free (REF_TEXT); REF_TEXT = item_text (&rc, f, &REF_TEXT_LEN); mh_close (&rc);
   if (!any) { vp_count ("programs_undefined_on_every_input", 1); }
   bfs_model m = {NOPS, w_fresh, w_destroy, w_apply, w_canon, w_opname, c};
